@@ -8,7 +8,15 @@ import (
 	"strconv"
 
 	"github.com/DataDog/sketches-go/ddsketch/store"
+
+	"verif/harness/internal/core"
+	"verif/harness/internal/mon"
 )
+
+func init() {
+	// the order in which observation snapshots ask their queries is drawn per case
+	core.OnCaseStart = mon.SetObserveOrder
+}
 
 func sortStrings(s []string) { sort.Strings(s) }
 
